@@ -130,16 +130,16 @@ theorem init_good (p : Project) (n : String) : Good p St.init n := Or.inl ⟨rfl
 
 theorem batches_eq (p : Project) (order : List String) (hnd : order.Nodup)
     (hk : ∀ n ∈ order, p.known n = true) :
-    batches p order = p.parseReports :: order.map (expected p) := by
+    batches p order = p.parseReports :: (order.map (expected p) ++ p.mainReports.toList) := by
   unfold batches
   rw [go_eq p order St.init hnd (fun n hn => ⟨hk n hn, init_good p n⟩)]
 
 theorem offered_eq (p : Project) (order : List String) (hnd : order.Nodup)
     (hk : ∀ n ∈ order, p.known n = true) :
-    offered p order = p.parseReports ++ order.flatMap (expected p) := by
+    offered p order = p.parseReports ++ order.flatMap (expected p) ++ p.mainReports.getD [] := by
   unfold offered
   rw [batches_eq p order hnd hk]
-  simp [List.flatMap_def]
+  cases p.mainReports <;> simp [List.flatMap_def]
 
 theorem displayed_eq_filter (o : Opts) (p : Project) (order : List String) :
     displayed o p order = (offered p order).filter (keep o) := by
